@@ -415,6 +415,13 @@ func c18(r *Report, s *Sem) {
 		// the closure captures the channel built in this iteration
 		if okSpawn {
 			okSpawn = false
+			if _, isClosure := goSite.Call.Value.(*ssa.MakeClosure); !isClosure {
+				for _, arg := range goSite.Call.Args {
+					if stripConv(arg) == ssa.Value(mk) {
+						okSpawn = true // `go serve(ctx, ch)`: the channel is an argument of the go statement
+					}
+				}
+			}
 			if mc, ok := goSite.Call.Value.(*ssa.MakeClosure); ok {
 				for _, b := range mc.Bindings {
 					for _, l := range leaves(b) {
